@@ -96,7 +96,8 @@ TLC_CP = "/opt/veriftools/tla/tla2tools.jar:/opt/veriftools/tla/CommunityModules
 
 
 def tlc_cmd(module, cfg, metadir, workers, simulate=None, depth=None, seed_=None, xmx="8g", deque=False, extra=()):
-    cmd = ["java", "-XX:+UseParallelGC", "-Xmx" + xmx, "-Xss1g"]
+    # UTF-8 everywhere: specifications, printed cases and trace files may hold non-ASCII text
+    cmd = ["java", "-XX:+UseParallelGC", "-Xmx" + xmx, "-Xss1g", "-Dfile.encoding=UTF-8", "-Dstdout.encoding=UTF-8", "-Dsun.stdout.encoding=UTF-8"]
     if deque:
         cmd.append("-Dtlc2.tool.queue.IStateQueue=StateDeque")
     cmd += ["-cp", TLC_CP, "tlc2.TLC", "-workers", str(workers), "-metadir", metadir, "-cleanup",
@@ -138,7 +139,7 @@ def run_model(module, cfg, wd, out_name, workers=None, timeout=1800, simulate=No
     gen = dist = 0
     err = None
     tail = []
-    with open(out_path, errors="replace") as f:
+    with open(out_path, encoding="utf-8", errors="replace") as f:
         for line in f:
             if line.startswith('"CASE') or line.startswith('"WORLD'):
                 continue
@@ -158,7 +159,7 @@ def run_model(module, cfg, wd, out_name, workers=None, timeout=1800, simulate=No
 def tlc_lines(out_path, prefix):
     """yield the JSON payload of lines printed by PrintT(prefix \\o ToJson(..))"""
     start = '"' + prefix + " "
-    with open(out_path, errors="replace") as f:
+    with open(out_path, encoding="utf-8", errors="replace") as f:
         for line in f:
             if line.startswith(start):
                 s = json.loads(line)          # TLA+ string escapes = JSON string escapes
